@@ -82,7 +82,10 @@ RevI(I, n) ==
 (* core.RunningEventFilter is created lazily by blockchain.New: its first use (Store, RevertHead,
    an event query) runs InitializeRunningEventFilter, which reads the COMMITTED chain height h and
    returns a filter caught up to h (from the persisted snapshot or by a rebuild): blocks 0..h,
-   next = h + 1.  All chains here stay inside one 8192-block window. *)
+   next = h + 1.  All chains here stay inside one 8192-block window; the window boundary (the
+   completed window persisted by the Store of block k*8192+8191 and re-opened by its revert, the
+   cache of persisted windows that queries warm and RevertHead purges, the rebuild after a crash)
+   is RevertWin.tla, with the same properties stated against a twin node. *)
 FInit(h) == [cov |-> 0..h, next |-> h + 1]
 FCur(h) == IF hot THEN [cov |-> fcov, next |-> fnext] ELSE FInit(h)
 
